@@ -110,7 +110,7 @@ def worker(args):
 
 def frag_rt_ok(t):
     """rt_ok of Proofs/RoundTrip.v: no empty fence, no code line that begins (after spaces) with a white-space character"""
-    if t[0] == 'p':
+    if t[0] in ('p', 'h'):
         return True
     if t[0] == 'f':
         return bool(t[2]) and all(l == '' or not l.lstrip(' ')[:1].isspace() for l in t[2])
